@@ -19,7 +19,7 @@
    the total -- three invariants proved preserved by EVERY operation (step_live), so no BeginBlock of any run halts the
    chain (run_begin_block_never_halts). A block reward above half the total is finding D19 (begin_block_mint_refuted).
    Panic-freedom of EndBlock is not proved; it is tested (halt detection on every generated history). *)
-From SaoVerif Require Import Base.Prelude Base.Ints Base.Dec Model.Did Model.Types Model.Monad Model.Bank Model.Select Model.Node Model.Storage Model.Sao Model.Hooks Model.App Model.Spec Proofs.SelectFacts Proofs.Frame Proofs.Accumulator Proofs.BeginLive Proofs.MetaSched Proofs.DataSched.
+From SaoVerif Require Import Base.Prelude Base.Ints Base.Dec Model.Did Model.Types Model.Monad Model.Bank Model.Select Model.Node Model.Storage Model.Sao Model.Hooks Model.App Model.Spec Proofs.SelectFacts Proofs.Frame Proofs.Accumulator Model.Monitors Proofs.RefInt Proofs.BeginLive Proofs.MetaSched Proofs.DataSched Proofs.ReleaseLive.
 From RecordUpdate Require Import RecordUpdate.
 Import RecordSetNotations.
 
@@ -74,6 +74,38 @@ Theorem C02_remove_data_expire_never_panics : forall tr s data h e,
   Forall (fun co : Ctx * Op => height_ok co.1) tr -> Inv_ds s -> remove_data_expire data h (run tr s) <> Panic e.
 Proof. first [exact remove_data_expire_never_panics | apply remove_data_expire_never_panics]. Qed.
 Print Assumptions C02_remove_data_expire_never_panics.
+
+(* the release of a shard never panics when its collateral is covered by the recorded total *)
+Theorem C02_release_covered_never_panics sp sh s p :
+  pledges s !! sp = Some p -> sh_pledge sh <= pl_shpledged p ->
+  match shard_release sp (Some sh) s with Panic _ | Hang => False | _ => True end.
+Proof. first [exact release_covered_never_panics | apply release_covered_never_panics]. Qed.
+Print Assumptions C02_release_covered_never_panics.
+
+(* and it does panic when it is not - the shape finding D23 produces *)
+Theorem C02_release_uncovered_panics sp sh s p po :
+  pledges s !! sp = Some p -> pool s = Some po -> sh_sp sh = sp -> debts s !! sp = None ->
+  0 < sh_pledge sh <= balance s (macc NODE) -> pl_shpledged p < sh_pledge sh ->
+  shard_release sp (Some sh) s = Panic "negative coin amount".
+Proof. first [exact release_uncovered_panics | apply release_uncovered_panics]. Qed.
+Print Assumptions C02_release_uncovered_panics.
+
+(* the clause live.release_covered decides it for every completed shard of a state *)
+Theorem C02_release_covered_sound s :
+  mon_release_covered s = true ->
+  (forall id sh, shards s !! id = Some sh -> 0 <= sh_pledge sh) ->
+  forall id sh p, shards s !! id = Some sh -> sh_status sh = ShardCompleted -> pledges s !! sh_sp sh = Some p ->
+    match shard_release (sh_sp sh) (Some sh) s with Panic _ | Hang => False | _ => True end.
+Proof. first [exact release_covered_sound | apply release_covered_sound]. Qed.
+Print Assumptions C02_release_covered_sound.
+
+Theorem C02_release_covered_nonvacuous :
+  mon_release_covered W.s2 = true /\
+  (exists sh p, shards W.s2 !! 1 = Some sh /\ sh_status sh = ShardCompleted /\ sh_sp sh = "T" /\ pledges W.s2 !! "T" = Some p /\
+     0 < sh_pledge sh /\ sh_pledge sh <= pl_shpledged p /\
+     shard_release "T" (Some sh) (W.s2 <| pledges ::= <["T" := p <| pl_shpledged := 0 |>]> |>) = Panic "negative coin amount").
+Proof. first [exact release_covered_nonvacuous | apply release_covered_nonvacuous]. Qed.
+Print Assumptions C02_release_covered_nonvacuous.
 
 Theorem C02_begin_block_mint_refuted : exists cx s s' d,
   step cx s OBeginBlock = (s', OutBlock BOk d) /\
